@@ -74,6 +74,10 @@ func BaseGraph(variant int) *Graph {
 		n.F["strs"] = L_("x"+tag, "y"+tag)
 		n.F["ints"] = L_(k, k+1, k+2)
 	}
+	a1.F["onlyA"], a2.F["onlyA"] = "oa1", "oa2"
+	b1.F["onlyB"], b2.F["onlyB"] = 31, 32
+	c1.F["onlyC"] = true
+	a1.F["buddy"], a2.F["buddy"], b1.F["buddy"], b2.F["buddy"], c1.F["buddy"] = a2, a1, b2, nil, a1
 	scal(q, "q", 7)
 	scal(a1, "a1", 1)
 	scal(a2, "a2", 2)
